@@ -210,8 +210,9 @@ def extra_axes(info):
     if name == "scram":
         ax["algs"] = ["sha-1,sha-256,sha-512", "sha-1", "sha-1,md5", "sha-1,sha-224,sha-384"]
     if name == "scrypt":
-        ax["block_size"] = [8, 1, 2, 9]
-        ax["parallelism"] = [1, 2, 3]
+        # 63 / 64 / 65 / 4095 / 4096: values around the 6-bit digit boundaries of the $7$ format's hash64 integers
+        ax["block_size"] = [8, 1, 2, 9, 63, 64]
+        ax["parallelism"] = [1, 2, 3, 63, 64, 65, 4096]
     if name in ("bcrypt_sha256",):
         ax["version"] = [2, 1]
     if base == "sun_md5_crypt":
